@@ -100,9 +100,10 @@ def search_cases(o, seed):
         [{"prop": PROP, "kind": "zone_sweep", "inputs": {"zone": z, "dates": "transitions"}} for z in ZONES_Q[1:]]
 
 
-ZONES_Q = ["UTC", "Asia/Jerusalem", "America/New_York", "Australia/Lord_Howe"]
+# Europe/Dublin: the only zone whose tm_isdst is 1 in WINTER (negative daylight saving); Africa/Casablanca: offset changes for Ramadan
+ZONES_Q = ["UTC", "Asia/Jerusalem", "America/New_York", "Australia/Lord_Howe", "Europe/Dublin", "Africa/Casablanca"]
 ZONES_T = ZONES_Q + ["Asia/Kathmandu", "Pacific/Kiritimati", "Pacific/Pago_Pago", "America/St_Johns", "Europe/London", "Europe/Berlin",
-                     "Asia/Tehran", "Asia/Kolkata", "Pacific/Chatham", "America/Sao_Paulo", "Africa/Casablanca", "Asia/Tokyo",
+                     "Asia/Tehran", "Asia/Kolkata", "Pacific/Chatham", "America/Sao_Paulo", "Asia/Almaty", "Asia/Tokyo", "America/Asuncion",
                      "America/Los_Angeles", "Australia/Adelaide", "Pacific/Apia", "America/Caracas", "Europe/Lisbon", "Asia/Gaza",
                      "America/Havana", "Antarctica/Troll", "Atlantic/Azores"]
 
